@@ -2036,6 +2036,8 @@ func translate(repo string, p *pkgFiles, outPath string) {
 		{fn: "Validate", recv: "IdpAuthnRequest", mutRecv: true, anchor: "mustHaveDestination :="},
 		{fn: "ValidateLogoutResponseForm", recv: "ServiceProvider", as: "logoutFormTail", anchor: "if err := sp.validateSignature(doc.Root()); err != nil {"},
 		{fn: "ValidateLogoutResponseRedirect", recv: "ServiceProvider", as: "logoutRedirectTail", anchor: "if err := sp.validateSignature(doc.Root()); err != nil {"},
+		{fn: "MakeAssertion", recv: "DefaultAssertionMaker", as: "conditionsNotBefore", anchor: "notBefore := req.Now.Add(-1 * MaxClockSkew)", until: "nameIDFormat :=", yield: "notBefore", yieldTy: "Int"},
+		{fn: "MakeAssertion", recv: "DefaultAssertionMaker", as: "conditionsNotOnOrAfter", anchor: "notBefore := req.Now.Add(-1 * MaxClockSkew)", until: "nameIDFormat :=", yield: "notOnOrAfterAfter", yieldTy: "Int"},
 		{fn: "GetSSOBindingLocation", recv: "ServiceProvider"},
 		{fn: "GetSLOBindingLocation", recv: "ServiceProvider"},
 		{fn: "ServeIDPInitiated", recv: "IdentityProvider", as: "idpInitiatedGate", state: "req", trace: true,
